@@ -172,6 +172,7 @@ func (s *PredicatePartitionStrategy) AddPartition(partition *PredicatePartition)
 	if exists {
 		return false
 	}
+	partition.UpdateLimit(s.limit)
 	s.partitions = append(s.partitions, partition)
 	return true
 }
